@@ -5,6 +5,7 @@
 (*            route (whole data, every (subset_num, num_subsets), every group of related        *)
 (*            viewgrams, windows, on-the-fly projector), forward (e_v) and back (e_b)           *)
 (*   Col      (history blocks) the columns of the recorded F                                   *)
+(*   Same     rows of a re-used object / of an image with other index ranges next to reference rows *)
 (*   Scaled   one call made with an integer input and with 2^k times that input                    *)
 (*   OtfGroup on-the-fly projector into a group of viewgrams that already holds data             *)
 (*   HistStart SetData SetInput ForwardSubset ForwardGroup StartNewTarget BackSubset BackGroup  *)
@@ -232,6 +233,27 @@ ScaledClass(r) ==
   ELSE IF ScaledSeq(r.ord2, r.ord1, r.k) THEN "ok"
   ELSE IF r.fwd THEN "forward-not-homogeneous" ELSE "back-not-homogeneous"
 
+\* rows of one object next to the rows of a reference object (observation against observation):
+\*  ctx "reuse"  the object was set up before with other arguments; the reference is a fresh object set up with the current
+\*               ones: "set_up() can be called more than once" - identical rows, bit for bit;
+\*  ctx "zindex" the image has z indices from step /= 0, the reference the standard image (z from 0), same physical grid (the
+\*               projectors centre the index range on the scanner): the same rows up to RowTol (index offsets enter the
+\*               floating-point geometry); "xshift": the x index range moved by one voxel and the origin moved back.
+\* Known findings: C04-otf-zmin (the on-the-fly projector silently assumes z indices from 0), C04-interp-xyorigin (the
+\* interpolation matrix silently assumes a zero x/y origin); in both cases everything else on the line must hold.
+Has3(r, f) == f \in DOMAIN r
+SameClass(r) ==
+  IF r.ctx = "reuse"
+  THEN (IF (Has3(r, "F") => r.F = r.rF) /\ (Has3(r, "B") => r.B = r.rB) THEN "ok" ELSE "reuse-differs-from-fresh")
+  ELSE IF r.ctx = "zindex"
+  THEN (IF ~(RowTolEq(r.F, r.rF) /\ RowTolEq(r.B, r.rB) /\ RowsUlpEq(r.F, r.B)) THEN "index-convention"
+        ELSE IF Has3(r, "O") /\ ~RowTolEq(r.O, r.rO) THEN (IF r.step # 0 THEN "C04-otf-zmin" ELSE "index-convention")
+        ELSE "ok")
+  ELSE IF r.ctx = "xshift"
+  THEN (IF RowTolEq(r.F, r.rF) /\ RowTolEq(r.B, r.rB) THEN "ok"
+        ELSE IF r.pair = "interp" /\ RowsUlpEq(r.F, r.B) THEN "C04-interp-xyorigin" ELSE "index-convention")
+  ELSE "unknown-event"
+
 SubsetArgsOk(r) == r.N \in 1 .. cfg.views + 1 /\ r.s \in 0 .. r.N - 1 /\ ~r.err
 HistWinOk(r) == WinRangeOk(cfg, HistWin(r)) /\ ~r.err
 
@@ -288,6 +310,11 @@ Next ==
      /\ LET res == CASE r.e = "Config" -> << IF ConfigOk(r) THEN "ok" ELSE "config", NoHistState >>
                      [] r.e = "Bin" -> << IF cfg.nb > 0 THEN BinClass(r) ELSE "no-config", [hs EXCEPT !.nnz = hs.nnz + Len(r.F)] >>
                      [] r.e = "Col" -> << IF cfg.nb > 0 THEN ColClass(r) ELSE "no-config", [hs EXCEPT !.ncol = hs.ncol + Len(r.col)] >>
+                     [] r.e = "Same" -> << SameClass(r), hs >>
+                     \* a class may refuse what it does not support (shifted x/y origin; z indices not from 0 for the on-the-fly projector)
+                     [] r.e = "XYShift" -> << IF r.xshift # 0 THEN "ok" ELSE "index-convention", hs >>
+                     [] r.e = "OtfRefused" -> << IF r.zlo # 0 THEN "ok" ELSE "index-convention", hs >>
+                     [] r.e = "ReuseStep" -> << IF ~r.err /\ r.nb > 0 THEN "ok" ELSE "reuse-set-up-refused", hs >>
                      [] r.e = "Scaled" -> << IF cfg.nb > 0 THEN ScaledClass(r) ELSE "no-config", hs >>
                      [] r.e = "OtfGroup" -> << IF cfg.nb > 0 THEN OtfClass(r) ELSE "no-config", hs >>
                      [] IsHistEvent(r) -> IF cfg.nb > 0 /\ InHist THEN HistStep(r) ELSE << "no-config", hs >>
